@@ -114,7 +114,16 @@ impl<F: Read + Write + Seek> Replayer<F> {
                                 "write_all".into()
                             }
                         }
-                        Step::HSeek { from, .. } => format!("seek {}", s.seek(*from)?),
+                        Step::HSeek { from, .. } => {
+                            let pos = s.stream_position()?;
+                            match from {
+                                std::io::SeekFrom::Current(d) if engine::use_seek_relative(*d, pos) => {
+                                    s.seek_relative(*d)?;
+                                    format!("seek {}", s.stream_position()?)
+                                }
+                                _ => format!("seek {}", s.seek(*from)?),
+                            }
+                        }
                         Step::HSetLen { n, .. } => {
                             s.set_len(*n)?;
                             "set_len".into()
@@ -126,9 +135,16 @@ impl<F: Read + Write + Seek> Replayer<F> {
                         Step::HPos { .. } => format!("pos {}", s.stream_position()?),
                         Step::HLen { .. } => format!("len {}", s.len()),
                         Step::HReadToEnd { .. } => {
-                            let mut v = Vec::new();
-                            s.read_to_end(&mut v)?;
-                            format!("read_to_end {} {:016x}", v.len(), fnv64(&v))
+                            let pos = s.stream_position()?;
+                            if engine::use_read_to_string(s.len(), pos) {
+                                let mut t = String::new();
+                                s.read_to_string(&mut t)?;
+                                format!("read_to_end {} {:016x}", t.len(), fnv64(t.as_bytes()))
+                            } else {
+                                let mut v = Vec::new();
+                                s.read_to_end(&mut v)?;
+                                format!("read_to_end {} {:016x}", v.len(), fnv64(&v))
+                            }
                         }
                         Step::HClose { .. } => {
                             s.flush()?;
